@@ -16,9 +16,9 @@ import (
 
 type c10Shape struct {
 	detail string
-	note  string
-	files map[string]string
-	order []string // dependency order, root last
+	note   string
+	files  map[string]string
+	order  []string // dependency order, root last
 }
 
 func shuffled(r *rng.R, xs []string) []string {
@@ -206,7 +206,32 @@ func shapeImportNames(r *rng.R, plain bool) c10Shape {
 	return c10Shape{fmt.Sprintf("%d includes named like imported packages, %d used in types", len(names), used), "shape: includes competing for import names", files, append(order, "root.thrift")}
 }
 
-var c10ShapeGens = []func(*rng.R, bool) c10Shape{shapeConstChains, shapeServiceChain, shapeSameBaseName, shapeImportNames}
+// shapeUmbrella: a root file that only includes; one of the included modules needs both a library
+// package and a Thrift package of the same name (errors, fmt, strings), a sibling needs the
+// library package only. Whatever is shared between the modules of one Generate call (a table of
+// import aliases, say) is filled in the order the modules are generated in.
+func shapeUmbrella(r *rng.R, plain bool) c10Shape {
+	lib := []string{"errors", "fmt", "strings"}[r.Intn(3)]
+	if plain {
+		lib = "errors"
+	}
+	files := map[string]string{
+		lib + ".thrift":  "exception Oops {\n  1: optional string m\n}\n\nstruct Item {\n  1: required string v\n}\n",
+		"catalog.thrift": fmt.Sprintf("include \"./%s.thrift\"\n\nstruct Entry {\n  1: required string name\n  2: optional %s.Item item\n  3: optional list<%s.Oops> failures\n}\n\nservice Catalog {\n  Entry get(1: string name) throws (1: %s.Oops oops)\n}\n", lib, lib, lib, lib),
+		"plain.thrift":   "struct Plain {\n  1: required string name\n  2: required i32 n\n}\n\nservice Plains {\n  Plain get(1: string name)\n}\n",
+		"other.thrift":   "include \"./plain.thrift\"\n\nstruct Other {\n  1: required plain.Plain p\n}\n",
+	}
+	incs := shuffled(r, []string{"catalog", "plain", "other"})
+	var sb strings.Builder
+	for _, n := range incs {
+		fmt.Fprintf(&sb, "include \"./%s.thrift\"\n", n)
+	}
+	sb.WriteString("\nconst i32 VERSION = 1\n")
+	files["root.thrift"] = sb.String()
+	return c10Shape{"umbrella file over modules that need " + lib + " as a library and as a Thrift package", "shape: umbrella over modules sharing an import name", files, []string{lib + ".thrift", "plain.thrift", "catalog.thrift", "other.thrift", "root.thrift"}}
+}
+
+var c10ShapeGens = []func(*rng.R, bool) c10Shape{shapeConstChains, shapeServiceChain, shapeSameBaseName, shapeImportNames, shapeUmbrella}
 
 // c10ShapeSizes: order dependences of the generator act on Go's natural map
 // order only (the link-order hook steers the compiler, not the generator), and
